@@ -69,8 +69,59 @@ theorem C02_transitive (l : List (Ev SysTag)) (hl : Traces sc.plan l)
   simp [hDA]
 
 end Scenario
+
+open DispatcherBuilder
+
+/-- **C02 (a name keeps meaning the system registered under it).** Whatever is registered later -
+named, unnamed (whose printed placeholder `unnamed_system_<id>` is only a rendering, never a map
+entry), rejected as a duplicate, or rejected for an unknown dependency - a name that resolves to an
+id keeps resolving to that id: a dependency list always refers to the system that was registered
+under the name. -/
+theorem C02_names_never_repointed (b : DispatcherBuilder) (tag : SysTag) (name : String) (dep : List String)
+    (d : Decl) (q : String) (id : SysId) (h : lookup b.map q = some id) :
+    lookup (b.add tag name dep d).1.map q = some id := by
+  unfold DispatcherBuilder.add
+  simp only []
+  cases resolve b.map dep with
+  | error x => simpa using h
+  | ok ids =>
+    simp only []
+    by_cases hn : name = ""
+    · subst hn; simpa using h
+    · simp only [ne_eq, hn, not_false_eq_true, if_true]
+      by_cases hl : (lookup b.map name).isSome = true
+      · simpa [hl] using h
+      · simp only [hl]
+        have hq : (name == q) = false := by
+          cases hnq : name == q with
+          | false => rfl
+          | true =>
+            have : name = q := by simpa using hnq
+            subst this; simp [h] at hl
+        simpa [lookup, hq] using h
+
+/-- the same over any further registrations: `regs` is a list of (tag, name, dependencies, declaration) -/
+theorem C02_names_never_repointed_run (regs : List (SysTag × String × List String × Decl)) :
+    ∀ (b : DispatcherBuilder) (q : String) (id : SysId), lookup b.map q = some id →
+      lookup (regs.foldl (fun b r => (b.add r.1 r.2.1 r.2.2.1 r.2.2.2).1) b).map q = some id := by
+  induction regs with
+  | nil => intro b q id h; simpa using h
+  | cons r rs ih =>
+    intro b q id h
+    simp only [List.foldl_cons]
+    exact ih _ q id (C02_names_never_repointed b r.1 r.2.1 r.2.2.1 r.2.2.2 q id h)
+
+/-- non-vacuity: after registering `a`, the name resolves; an unnamed registration and one under the
+placeholder's spelling leave it alone -/
+example : let b0 := (({} : DispatcherBuilder).add 0 "a" [] ⟨[], [], 1⟩).1
+    DispatcherBuilder.lookup b0.map "a" = some 0 ∧
+    DispatcherBuilder.lookup ((b0.add 1 "" [] ⟨[], [], 1⟩).1.add 2 "unnamed_system_1" [] ⟨[], [], 1⟩).1.map "a" = some 0 := by
+  decide
+
 end Shred
 
+#print axioms Shred.C02_names_never_repointed
+#print axioms Shred.C02_names_never_repointed_run
 #print axioms Shred.Scenario.C02_dependencies
 #print axioms Shred.C02_order_nested
 #print axioms Shred.C02_deps_order_tagged
